@@ -768,6 +768,9 @@ def num_eval(v, point):
             r = math.fmod(a, b)
             return r + abs(b) if r < 0 else r
         if op.startswith("cast:f"): return a
+        if op == "RND": return math.floor(a + 0.5) + 0.5          # raster_sym: round_up_to_half
+        if op == "FLOOR": return float(math.floor(a))
+        if op == "TOINT": return float(max(0, int(a))) if a == a and abs(a) != math.inf else (0.0 if a != a or a < 0 else float(2 ** 64 - 1))
     except (ValueError, OverflowError):
         return math.nan
     raise NotNumeric("operator %s" % op)
